@@ -243,7 +243,9 @@ fn rotate(
     #[cfg(log4rs_verif)]
     crate::verif_hooks::rotate_step(verif_step, &file.to_string_lossy(), dst_0.as_ref())?;
     compression.compress(&file, &dst_0).map_err(|e| {
-        println!("err compressing: {:?}, dst: {:?}", file, dst_0);
+        // not println!: that panics when standard output cannot be written (a closed pipe)
+        use std::io::Write;
+        let _ = writeln!(io::stdout(), "err compressing: {:?}, dst: {:?}", file, dst_0);
         e
     })?;
     Ok(())
